@@ -235,6 +235,8 @@ def compare_block(ops, hout, dout, exact):
     Returns None or (index into ops, kind, impl, model, spec)."""
     hres = hout[2:]
     dres = dout[3:]
+    if len(hout) > 1 and hout[1] in ("pipe-too-small", "no-shim"):
+        return "skipped"          # resource limit of this machine (pipe buffer), not a property of kenlm
     if len(hout) < 2 or not hout[1].startswith("ok"):
         return (-1, "open", hout[1] if len(hout) > 1 else None, None, None)
     for i, op in enumerate(ops):
@@ -350,6 +352,9 @@ def eval_case(ctx, T, r, plain, ops, backends, found_classes, sample=False, raws
         # independent oracle: all backends agree with each other on the canonical transcript
         canon_t = [canon(op, x) for op, x in zip(ops, hout[2:])]
         bad = compare_block(ops, hout, dout, exact)
+        if bad == "skipped":
+            ctx.hist("fp.skipped_no_pipe_buffer", name)
+            continue
         if bad is None and reference is None:
             reference = (name, canon_t)
         if bad is None and canon_t != reference[1]:
@@ -389,7 +394,7 @@ def eval_case(ctx, T, r, plain, ops, backends, found_classes, sample=False, raws
             if r1 != 0 or r2 != 0:
                 return False
             b = compare_block(cand_ops, o1, o2, exact)
-            return b is not None and classify(hk, codec, cand_ops[b[0]] if b[0] >= 0 else "open", b[2], b[4]) == cls
+            return b is not None and b != "skipped" and classify(hk, codec, cand_ops[b[0]] if b[0] >= 0 else "open", b[2], b[4]) == cls
         small = ops[:i + 1]
         rplain, rraw = plain, raw
         if key is None and i >= 0:
@@ -404,7 +409,7 @@ def eval_case(ctx, T, r, plain, ops, backends, found_classes, sample=False, raws
                     if r1 != 0 or r2 != 0:
                         return False
                     b = compare_block(small, o1, o2, exact)
-                    return b is not None and classify(hk, codec, small[b[0]] if b[0] >= 0 else "open", b[2], b[4]) == cls
+                    return b is not None and b != "skipped" and classify(hk, codec, small[b[0]] if b[0] >= 0 else "open", b[2], b[4]) == cls
                 lo, hi = 0, len(plain)       # invariant: plain[:hi] fails
                 for _ in range(14):
                     if hi - lo <= 1:
@@ -437,7 +442,7 @@ def eval_case(ctx, T, r, plain, ops, backends, found_classes, sample=False, raws
             _, o1, _ = T.harness(h2, 120)
             _, o2, _ = T.driver(d2, 120)
             b = compare_block(small, o1, o2, exact)
-            if b is not None:
+            if b is not None and b != "skipped":
                 _, _, impl, model, spec = b
         rep = {"stream": "filepiece", "class": cls, "backend": name, "harness_kind": hk, "codec": codec, "min_buffer": mb,
                "shim": {"mode": sm[0], "seed": sm[1], "span": sm[2], "mmap_fails_from": sm[3] if len(sm) > 3 else -1}, "ops": small, "first_bad_op_index_in_full_script": i,
@@ -497,6 +502,9 @@ def rc_cases(ctx, T, r, n, found_classes):
         sm = r.choice([(0, 0, 1), (1, 0, 1) if len(raw) < 5000 else (2, 0, 4095), (3, r.randrange(1 << 32), r.choice([3, 1000, 20000]))])
         rc, out, err = T.harness(["data " + raw.hex(), "rc %d %d %d %d" % (amount, sm[0], sm[1], sm[2])])
         want = "RC " + show_bytes(plain) + " over=0 data_after_zero=0"
+        if rc == 0 and len(out) > 1 and out[1] == "pipe-too-small":
+            ctx.hist("rc.skipped_no_pipe_buffer", codec)
+            continue
         ctx.count(("rc", sha(raw), amount, sm), nontrivial=codec != "plain" and len(plain) > 0)
         ctx.hist("rc.codec", codec)
         if rc != 0 or len(out) < 2 or out[1] != want:
@@ -612,6 +620,9 @@ def replay(ctx, path):
         print(he[-1500:])
         return 1
     bad = compare_block(ops, ho, do, exact)
+    if bad == "skipped":
+        print("cannot replay here: pipe buffer too small")
+        return 2
     print("still failing: %s" % (bad,) if bad else "passes on this tree")
     return 1 if bad else 0
 
